@@ -8,5 +8,7 @@ CONSTANTS
   DedupKeys = FALSE
   AssembleByArrival = FALSE
   FoldUnsynchronised = FALSE
+  FailKeys = {"b1"}
+  MsetIgnoresChildErrors = FALSE
 INVARIANTS EqualsReference StoreIsReference ChildAtOwner
 CHECK_DEADLOCK FALSE
